@@ -39,6 +39,11 @@ type wsConnection struct {
 
 	closed atomic.Bool
 
+	// closing is set, under subsMu, when the connection was found empty and is about to be
+	// closed. subscribe checks it under the same lock, so no subscription can slip in between
+	// the emptiness check and the close.
+	closing atomic.Bool
+
 	onEmpty     func()
 	idleTimeout time.Duration
 
@@ -81,7 +86,7 @@ func newWSConnection(conn *websocket.Conn, proto protocol.Protocol, opts wsConne
 func (c *wsConnection) subscribe(ctx context.Context, id string, req *common.Request, handler common.Handler) (func(), error) {
 	c.subsMu.Lock()
 
-	if c.closed.Load() {
+	if c.closed.Load() || c.closing.Load() {
 		c.subsMu.Unlock()
 		return nil, common.ErrConnectionClosed
 	}
@@ -124,17 +129,26 @@ func (c *wsConnection) removeSub(id string) {
 
 	if isEmpty {
 		if c.idleTimeout > 0 {
-			time.AfterFunc(c.idleTimeout, func() {
-				c.subsMu.RLock()
-				stillEmpty := len(c.subs) == 0
-				c.subsMu.RUnlock()
-				if stillEmpty {
-					c.closeConn()
-				}
-			})
+			time.AfterFunc(c.idleTimeout, c.closeIfEmpty)
 		} else {
-			c.closeConn()
+			c.closeIfEmpty()
 		}
+	}
+}
+
+// closeIfEmpty closes the connection unless a subscription was registered since it was
+// found empty. The check and the closing mark happen under subsMu, the lock under which
+// subscribe registers.
+func (c *wsConnection) closeIfEmpty() {
+	c.subsMu.Lock()
+	stillEmpty := len(c.subs) == 0
+	if stillEmpty {
+		c.closing.Store(true)
+	}
+	c.subsMu.Unlock()
+
+	if stillEmpty {
+		c.closeConn()
 	}
 }
 
@@ -280,5 +294,5 @@ func (c *wsConnection) pongOverdue(timeout time.Duration) bool {
 }
 
 func (c *wsConnection) isClosed() bool {
-	return c.closed.Load()
+	return c.closed.Load() || c.closing.Load()
 }
